@@ -41,6 +41,8 @@ type verifDirectory struct {
 	Servers   []*verifLDAPServer
 	Binds     int // user binds that reached a verdict
 	Searches  int
+	hold      chan struct{}
+	waiting   int
 }
 
 type verifLDAPServer struct {
@@ -203,10 +205,40 @@ func (s *verifLDAPServer) handleBind(w ldapsrv.ResponseWriter, m *ldapsrv.Messag
 	w.Write(res)
 }
 
+// Hold makes every group search wait (a slow directory) until the returned function is called; Waiting reports how
+// many searches are parked.
+func (d *verifDirectory) Hold() (release func()) {
+	ch := make(chan struct{})
+	d.mu.Lock()
+	d.hold = ch
+	d.mu.Unlock()
+	return func() {
+		d.mu.Lock()
+		if d.hold == ch {
+			d.hold = nil
+		}
+		d.mu.Unlock()
+		close(ch)
+	}
+}
+
+func (d *verifDirectory) Waiting() int {
+	d.mu.Lock()
+	defer d.mu.Unlock()
+	return d.waiting
+}
+
 func (s *verifLDAPServer) handleGroupSearch(w ldapsrv.ResponseWriter, m *ldapsrv.Message) {
 	r := m.GetSearchRequest()
 	d := s.dir
 	d.mu.Lock()
+	if ch := d.hold; ch != nil {
+		d.waiting++
+		d.mu.Unlock()
+		<-ch
+		d.mu.Lock()
+		d.waiting--
+	}
 	defer d.mu.Unlock()
 	d.Searches++
 	if s.mode == "error" {
